@@ -124,6 +124,9 @@ def _matrix_plan(tier):
             ("rm3x3", None, MATRIX_M[:1], MATRIX_R, _structured_counts(9)),
             ("ft2x2", [1, 2], MATRIX_M[:1], [-1.0, 0.5], all4[:27] + [[7, 1, 0, 7]]),
             ("rm3x3", [1, 2, 3], MATRIX_M[:1], [0.0], _structured_counts(9)),
+            # ids that do not first appear in sorted order (mesh-file order): per-node results must stay with their node
+            ("ft2x2", [7, 2, 5], MATRIX_M[:1], [-1.0, 0.5], all4[:27] + [[7, 1, 0, 7]]),
+            ("rm3x3", [30, 10, 20], MATRIX_M[:1], [0.0], _structured_counts(9)),
         ]
     all9_07 = [list(c) for c in itertools.product((0, 7), repeat=9)]
     all9 = [list(c) for c in itertools.product((0, 1, 7), repeat=9)]
@@ -137,6 +140,8 @@ def _matrix_plan(tier):
         ("ft3x3irr", None, MATRIX_M[:1], [0.0], all9),
         ("ft2x2", [1, 2], MATRIX_M[:2], MATRIX_R, all4),
         ("rm3x3", [1, 2, 3], MATRIX_M[:1], MATRIX_R, _structured_counts(9)),
+        ("ft2x2", [7, 2, 5], MATRIX_M[:2], MATRIX_R, all4),
+        ("rm3x3", [30, 10, 20], MATRIX_M[:1], MATRIX_R, _structured_counts(9)),
     ]
 
 
@@ -570,6 +575,12 @@ def _judge_matrix_result(res, ranges, counts, node_of_class):
         groups = []
         for node in sorted(set(node_of_class)):
             groups.append((node, res.xs(node, level="node"), np.where(np.asarray(node_of_class) == node)[0]))
+        # every node's matrix is a rainflow matrix of its own: its cycles must stay with it
+        for node, part, members in groups:
+            tin, tout = float(sum(counts[i] for i in members)), float(part.sum())
+            if tin != tout:
+                return "cycles-not-conserved", {"node": node, "cycles_in_of_node": tin, "cycles_out_of_node": tout,
+                                                "grand_total_conserved": True}
     for node, part, members in groups:
         iv = part.index.get_level_values("range")
         edges = [float(iv.left[0])] + [float(x) for x in iv.right]
